@@ -38,7 +38,7 @@ def load(modname, overrides=None, np=NP, convert_arrays=True):
         ns["np"] = np
     if convert_arrays:
         for k, v in list(ns.items()):
-            if isinstance(v, _np.ndarray) and not k.startswith("__"):
+            if type(v) is _np.ndarray and not k.startswith("__"):
                 ns[k] = SymArray(v)
     for k, v in (overrides or {}).items():
         ns[k] = v
@@ -57,7 +57,7 @@ class Tracer:
         co = frame.f_code
         if event == "call":
             fn = co.co_filename
-            if fn.startswith(REPO_SRC):
+            if fn.startswith(REPO_SRC) and not co.co_name.startswith("<"):
                 self.funcs.add(f"{os.path.relpath(fn, REPO_SRC)}:{co.co_qualname if hasattr(co, 'co_qualname') else co.co_name}")
         elif event == "return" and co.co_name in self.watch and co.co_filename.startswith(REPO_SRC):
             self.locals[co.co_name] = dict(frame.f_locals)
